@@ -54,6 +54,13 @@ def gen_cases(tier, rng):
         dt = rng.choice(["f64", "f32", "i64", "i32"])
         arr = [None if (dt[0] == "f" and rng.random() < 0.3) else rng.randint(-20, 20) for _ in range(L)]
         yield dict(helper="nanop", fn=rng.choice(fns), dt=dt, arr=arr, threads=rng.randint(1, 8), ddof=rng.choice([0, 1]))
+    # long float32 arrays (built from a few parameters so that the case stays small): NumPy sums float32 pairwise, so a
+    # sequential float32 accumulation drifts from it by far more than the tolerance; 2**24 + 1000 ones stop growing at 2**24
+    for _ in range(12 if tier == "quick" else 60):
+        kind = rng.choice(["uniform", "uniform", "ones"])
+        n = rng.choice([200_000, 400_000]) if kind == "uniform" else rng.choice([2 ** 24 + 1000, 2 ** 24 + 12345]) if rng.random() < 0.2 else rng.randint(10, 5000)
+        yield dict(helper="nanop_long", fn=rng.choice(["nansum", "nanmean", "nanvar", "nanstd", "nansum2d"]), dt=rng.choice(["f32", "f32", "f64"]), kind=kind, n=n,
+                   gseed=rng.randrange(1 << 30), nulls=rng.random() < 0.5, threads=rng.choice([1, 1, 2, 4, 8]), ddof=rng.choice([0, 1]))
     # non-finite values: inf - inf = NaN must come out the same for every thread count (NumPy on the same array is the oracle)
     for _ in range(600 if tier == "quick" else 8000):
         L = rng.randint(2, 12)
@@ -179,6 +186,33 @@ def evaluate(case, drv):
                     return bad(ans["spec"], ans["model"], verdict="disagreement", note="model != spec inside the driver")
             else:
                 res["tags"].append("model-undefined(empty chunk)")
+        res.update(verdict="ok", detail=None)
+        return res
+    if h == "nanop_long":
+        g = np.random.default_rng(case["gseed"])
+        n, fn, t = case["n"], case["fn"], case["threads"]
+        npdt = np.float32 if case["dt"] == "f32" else np.float64
+        arr = (np.ones(n, dtype=npdt) if case["kind"] == "ones" else (g.random(n) * 1000).astype(npdt))
+        if case["nulls"] and case["kind"] != "ones":
+            arr[g.random(n) < 0.05] = np.nan
+        res["size"] = n
+        ref = arr.astype(np.float64)
+        try:
+            if fn == "nansum2d":
+                m = arr[: (n // 3) * 3].reshape(3, -1)
+                got = np.asarray(nanops.nansum(m, axis=1, n_threads=t), dtype=np.float64)
+                exp = np.nansum(ref[: (n // 3) * 3].reshape(3, -1), axis=1)
+            elif fn in ("nanvar", "nanstd"):
+                got = np.asarray(getattr(nanops, fn)(arr, n_threads=t, ddof=case["ddof"]), dtype=np.float64)
+                exp = np.asarray(getattr(np, fn)(ref, ddof=case["ddof"]))
+            else:
+                got = np.asarray(getattr(nanops, fn)(arr, n_threads=t), dtype=np.float64)
+                exp = np.asarray(getattr(np, fn)(ref))
+        except Exception as e:  # noqa
+            return bad("numpy " + fn, f"error:{type(e).__name__}: {str(e)[:150]}")
+        # NumPy on the same float32 array is pairwise: relative error about 1e-7 * log2(n); allow 5e-6
+        if not np.allclose(got, exp, rtol=5e-6, atol=0, equal_nan=True):
+            return bad(exp.tolist(), got.tolist(), note="long float32/float64 array against NumPy on the float64 copy")
         res.update(verdict="ok", detail=None)
         return res
     if h == "nanop_inf":
